@@ -129,11 +129,16 @@ def check_expect(data, hits, rec, report, ctx):
     if not all(s in CLEAN_SEPS for s in rec["seps"]):
         ctx.count("ps_constructed_dirty_separators(totality only)")
         return
-    if not recognisable(rec["prefix"]) or b"powershell" in rec["prefix"].lower():
+    if not recognisable(rec["prefix"]) or (b"powershell" in rec["prefix"].lower() and not rec.get("pair")):
         return
     import base64 as b64mod
 
-    b64 = b64mod.b64encode(rec["payload"].encode("utf-16-le"))
+    if rec.get("pair"):
+        ctx.count("ps_constructed_after_another_invocation")
+    raw = rec.get("raw") or rec["payload"].encode("utf-16-le")
+    if raw[:2] in (b"\xff\xfe", b"\xfe\xff"):
+        ctx.count("ps_constructed_with_byte_order_mark")
+    b64 = b64mod.b64encode(raw)
     if len(b64.rstrip(b"=")) < 4:
         return  # the documented argument pattern needs at least four base64 characters before the padding
     arg = rec["tokens"][-1]
@@ -252,6 +257,7 @@ def run_shard(spec, ctx):
         case = {"kind": "text", "data": runner.hx(data)}
         if expect is not None:
             case["expect"] = {"prefix": runner.hx(expect["prefix"]), "suffix": runner.hx(expect["suffix"]), "payload": expect["payload"],
+                              "raw": runner.hx(expect["raw"]), "pair": expect["pair"],
                               "tokens": [runner.hx(t) for t in expect["tokens"]], "seps": [runner.hx(s) for s in expect["seps"]],
                               "quote": runner.hx(expect["quote"])}
         if not ctx.begin(case):
@@ -303,6 +309,7 @@ def replay(case, ctx):
     if "expect" in case:
         e = case["expect"]
         expect = {"prefix": runner.unhx(e["prefix"]), "suffix": runner.unhx(e["suffix"]), "payload": e["payload"],
+                  "raw": runner.unhx(e["raw"]) if e.get("raw") else None, "pair": bool(e.get("pair")),
                   "tokens": [runner.unhx(t) for t in e["tokens"]], "seps": [runner.unhx(s) for s in e["seps"]],
                   "quote": runner.unhx(e["quote"])}
     judge_text(runner.unhx(case["data"]), ctx, case, expect)
